@@ -306,6 +306,8 @@ class World:
         raise SimAbort()
 
     def event(self, me, kind, detail):
+        if self.finished:
+            raise SimAbort()        # unwinding code (e.g. a with-block closing a file) must not park again
         self.gseq += 1
         if self.gseq > self.max_events:
             self._fail(Violation('event-cap', self.gseq))
@@ -444,6 +446,7 @@ class World:
             _tls.world = self
             _tls.rank = r
             _tls.comm_world = None
+            _tls.comm_self = None
             self.sems[r].acquire()
             try:
                 if self.finished or self.job_aborted:
